@@ -596,3 +596,38 @@ Lemma seek_end_mapped_holds : forall m,
   Forall2 (output_is 100) (map snd (trace (init 100 110 m) hist_seek_end))
           (atrace (afile_init (mem_read m 100 (Z.max 100 110 - 100))) (map abs_op hist_seek_end)).
 Proof. intros m. apply refines_file. apply init_represents. Qed.
+
+(* ------------------------------------------------------------------------------------------ *)
+(* the refinement for a fresh MemoryIO, in one statement                                         *)
+(* ------------------------------------------------------------------------------------------ *)
+Theorem refines_file_init : forall s e m ops,
+  let f := afile_init (mem_read m s (Z.max s e - s)) in
+  Forall2 (output_is s) (map snd (trace (init s e m) ops)) (atrace f (map abs_op ops))
+  /\ represents s (run (init s e m) ops) (arun f (map abs_op ops)).
+Proof. intros s e m ops. cbv zeta. apply refines_file. apply init_represents. Qed.
+
+(* the same for the view sdram_alloc_as_filelike(size) makes of a block at `start` *)
+Theorem refines_file_filelike : forall start size m ops,
+  0 <= size ->
+  let f := afile_init (mem_read m start size) in
+  Forall2 (output_is start) (map snd (trace (alloc_as_filelike start size m) ops)) (atrace f (map abs_op ops))
+  /\ represents start (run (alloc_as_filelike start size m) ops) (arun f (map abs_op ops)).
+Proof.
+  intros start size m ops Hsize. cbv zeta. unfold alloc_as_filelike, gen_filelike_end.
+  pose proof (refines_file_init start (start + size) m ops) as H. cbv zeta in H.
+  replace (Z.max start (start + size) - start) with size in H by lia. exact H.
+Qed.
+
+(* in the file all windows share the bytes: what is stored at positions [p, p+|bs|) -- through whichever
+   window -- is what any window reads back from those positions *)
+Lemma sub_splice : forall d p bs,
+  0 <= p -> p + zlen bs <= zlen d -> sub (splice d p bs) p (zlen bs) = bs.
+Proof.
+  intros d p bs Hp Hle. pose proof (splice_length d p bs Hp Hle) as Hlen. unfold zlen in Hle.
+  apply (nth_ext _ _ 0 0).
+  - unfold sub. rewrite firstn_length, skipn_length, Hlen, to_nat_zlen. lia.
+  - intros i Hi. unfold sub in *. rewrite firstn_length, skipn_length, Hlen, to_nat_zlen in Hi.
+    rewrite nth_firstn_lt by (rewrite to_nat_zlen; lia). rewrite nth_skipn_add. unfold splice.
+    assert (Hfl : length (firstn (Z.to_nat p) d) = Z.to_nat p) by (rewrite firstn_length; lia).
+    rewrite app_nth2 by lia. rewrite app_nth1 by lia. f_equal. lia.
+Qed.
